@@ -10,6 +10,9 @@ FEAT=""
 case "$DEMO_CMD" in *--no-default-features*) FEAT="--no-default-features";; esac
 case "$DEMO_CMD" in *"--features r1cs"*) FEAT="--features r1cs";; esac
 REL=""
+RF=""
+case "$DEMO_CMD" in *decaf377_verif*) RF="--cfg decaf377_verif";; esac
+TAG=$(echo "$S" | tr "/" "_")
 echo "== seed $S  features: '$FEAT'"
 git apply "$S/patch.diff" || { echo "RESULT patch-does-not-apply"; exit 1; }
 ok=1
@@ -20,9 +23,9 @@ T=$(cargo test --workspace --no-fail-fast --offline 2>&1 | grep -E "^test result
 echo "suite with patch: passed/failed = $T"
 [ "$T" = "101 0" ] || ok=0
 cp "$S/demo.rs" tests/demo.rs
-cargo test --offline $FEAT --test demo > /tmp/demo_with.log 2>&1; rc_with=$?
+RUSTFLAGS="$RF" cargo test --offline $FEAT --test demo > /tmp/demo_with$TAG.log 2>&1; rc_with=$?
 git apply -R "$S/patch.diff"
-cargo test --offline $FEAT --test demo > /tmp/demo_without.log 2>&1; rc_without=$?
+RUSTFLAGS="$RF" cargo test --offline $FEAT --test demo > /tmp/demo_without$TAG.log 2>&1; rc_without=$?
 rm -f tests/demo.rs
 git checkout -q -- . ; git clean -fdq -e target
 echo "demo with patch rc=$rc_with ; without rc=$rc_without"
